@@ -20,6 +20,9 @@ UU = 1 << U
 SPACE_CLASSES = ['identical', 'touch', 'touch_seam', 'touch_corner', 'nested_left', 'nested_right', 'nested_interior',
                  'disjoint_near', 'disjoint_any', 'disjoint_seam_near']
 TIME_CLASSES = ['equal', 'touch_after', 'separated', 'overlap', 'acausal', 'acausal_touch']
+SHIPPED = ('UnitSquare', 'PiSquare', 'LShape', 'Circle', 'UnitInterval')
+# plus the line/arc curves of vlib/geo.py (custom PiecewiseParametrization objects)
+WITH_MIXED = SHIPPED + ('Stadium', 'Stadium1', 'Dee')
 
 
 # ------------------------------------------------------------------ classification (geometry only)
